@@ -13,6 +13,8 @@ THEOREMS = {
     "Dawgs.Props.C15": [
         "Dawgs.C15.Props.spec_bfs_is_reachability",
         "Dawgs.C15.Props.sccCert_sound",
+        "Dawgs.C15.Props.tarjan_terminates",
+        "Dawgs.C15.Props.tarjan_partition",
         "Dawgs.C15.Props.tarjan_correct_partial",
         "Dawgs.C15.Props.bidir_reachable_correct",
         "Dawgs.C15.Props.reach_cache_exact_fixed",
@@ -79,7 +81,7 @@ SPEC = {
     "fallback_level": "other",
     "lean_modules": ["Dawgs.Props.C15"],
     "theorems_by_module": THEOREMS,
-    "gate_modules": ["Dawgs.Model.C15", "Dawgs.Spec.C15", "Dawgs.Proofs.C15", "Dawgs.Props.C15"],
+    "gate_modules": ["Dawgs.Model.C15", "Dawgs.Spec.C15", "Dawgs.Proofs.C15", "Dawgs.Proofs.C15Tarjan", "Dawgs.Props.C15"],
     "suites": [{"name": "c15", "model_suite": "c15fixed" if _mode == "fixed" else "c15", "monitor_suite": "c15mon",
                 "keep_prefix": 2, "thorough_seeds": 2, "shrink_budget": 200}],
     "nontrivial": nontrivial,
